@@ -30,6 +30,7 @@ import (
 )
 
 type goVal struct {
+	facts []string // for heap-shaped values: what pins the symbolic term to the literal (length, elements)
 	lit  string // Go literal
 	smt  string // SMT term of the same value (for scalars)
 	ok   bool
@@ -127,6 +128,8 @@ func typeExpr(t types.Type, pkg *types.Package) string {
 }
 
 type replayCtx struct {
+	depth int
+	facts []string
 	g      *Gen
 	fv     *FnV
 	values map[string]*sx // get-value results by term text
@@ -201,6 +204,16 @@ func (rc *replayCtx) decode(n *sx, t types.Type, term string) goVal {
 			if c.ctor != ctor {
 				continue
 			}
+			if st, isSlice := c.typ.Underlying().(*types.Slice); isSlice && c.sort == sSlice && !c.boxed && rc.depth < 1 && g.sortOf(st.Elem()) == sAny {
+				// an array inside an interface value: one more level, elements read from the entry heap
+				rc.depth++
+				inner := rc.decodeSlice("("+c.sel+" "+term+")", st, c.typ)
+				rc.depth--
+				if !inner.ok {
+					return goVal{}
+				}
+				return goVal{lit: "any(" + inner.lit + ")", smt: term, ok: true, facts: append([]string{"((_ is " + c.ctor + ") " + term + ")"}, inner.facts...)}
+			}
 			if c.boxed || c.sort == sRef || c.sort == sSlice {
 				return goVal{}
 			}
@@ -254,6 +267,7 @@ func replayModel(g *Gen, o *Obligation, rf *ReplayFile) {
 	rc := &replayCtx{g: g, fv: fv, strs: map[string]string{}, pkg: fv.pkgTypes()}
 	// 1. re-run asking for everything needed to rebuild the inputs
 	var gv []string
+	var decodable []string // interface-valued terms the decoder would like to be nil, a number, a string, a bool or an array
 	for i, p := range fn.Params {
 		t := fv.paramTerms[i]
 		gv = append(gv, t)
@@ -264,6 +278,45 @@ func replayModel(g *Gen, o *Obligation, rf *ReplayFile) {
 			for _, c := range g.anyOrder {
 				if c.sort == sStr {
 					gv = append(gv, strTerms("("+c.sel+" "+t+")")...)
+				}
+			}
+			decodable = append(decodable, t)
+		case sSlice:
+			// a slice of scalars, strings or interface values: its length and first elements, read from the entry heap
+			st, ok := p.Type().Underlying().(*types.Slice)
+			if !ok {
+				break
+			}
+			gv = append(gv, "(s!len "+t+")")
+			for k := 0; k < replaySliceMax; k++ {
+				et := rc.sliceElemTerm(t, st.Elem(), k)
+				gv = append(gv, et)
+				switch g.sortOf(st.Elem()) {
+				case sStr:
+					gv = append(gv, strTerms(et)...)
+				case sAny:
+					for _, c := range g.anyOrder {
+						if c.sort == sStr {
+							gv = append(gv, strTerms("("+c.sel+" "+et+")")...)
+						}
+						if ist, isSlice := c.typ.Underlying().(*types.Slice); isSlice && c.sort == sSlice && !c.boxed && g.sortOf(ist.Elem()) == sAny {
+							inner := "(" + c.sel + " " + et + ")"
+							gv = append(gv, "(s!len "+inner+")")
+							for k2 := 0; k2 < replaySliceMax; k2++ {
+								it := rc.sliceElemTerm(inner, ist.Elem(), k2)
+								gv = append(gv, it)
+								if g.sortOf(ist.Elem()) == sAny {
+									decodable = append(decodable, it)
+									for _, c2 := range g.anyOrder {
+										if c2.sort == sStr {
+											gv = append(gv, strTerms("("+c2.sel+" "+it+")")...)
+										}
+									}
+								}
+							}
+						}
+					}
+					decodable = append(decodable, et)
 				}
 			}
 		}
@@ -280,8 +333,91 @@ func replayModel(g *Gen, o *Obligation, rf *ReplayFile) {
 	if !strings.Contains(script, "(declare-fun str!at") {
 		script = strings.Replace(script, strSort, strSort+"\n(declare-fun str!at (Str (_ BitVec 64)) (_ BitVec 8))", 1)
 	}
-	script += "(get-value (" + strings.Join(gv, " ") + "))\n"
-	res, out, _ := runSolver(solvers[0], script, 30, "replay")
+	{
+		// a term over a heap component the query never mentions cannot be asked for (it is not declared there)
+		var keep []string
+		for _, t := range gv {
+			ok := true
+			for _, tok := range tokens(t) {
+				if strings.HasPrefix(tok, "|H") && !strings.Contains(script, tok) {
+					ok = false
+				}
+			}
+			if ok {
+				keep = append(keep, t)
+			}
+		}
+		gv = keep
+		var keepD []string
+		for _, t := range decodable {
+			ok := true
+			for _, tok := range tokens(t) {
+				if strings.HasPrefix(tok, "|H") && !strings.Contains(script, tok) {
+					ok = false
+				}
+			}
+			if ok {
+				keepD = append(keepD, t)
+			}
+		}
+		decodable = keepD
+	}
+	// first ask for a model whose interface values are of kinds the decoder can write down (any model refutes the
+	// obligation; one with plain values can also be replayed); fall back to an unconstrained model
+	var prefer []string
+	for _, t := range decodable {
+		var alts []string
+		alts = append(alts, eq(t, "a!nil"))
+		for _, c := range g.anyOrder {
+			if c.boxed {
+				continue
+			}
+			if c.sort == sStr || c.sort == sBool || c.sort == sF64 {
+				alts = append(alts, "((_ is "+c.ctor+") "+t+")")
+			}
+			if _, isSlice := c.typ.Underlying().(*types.Slice); isSlice && c.sort == sSlice && types.Identical(c.typ.Underlying().(*types.Slice).Elem(), types.NewInterfaceType(nil, nil)) {
+				alts = append(alts, "((_ is "+c.ctor+") "+t+")")
+			}
+		}
+		prefer = append(prefer, or(alts...))
+	}
+	var preferStr []string
+	for _, t := range gv {
+		if strings.HasPrefix(t, "(s!len ") {
+			prefer = append(prefer, "(bvule "+t+" "+bvLit(replaySliceMax-1, 64)+")")
+		}
+		if strings.HasPrefix(t, "(str!len ") {
+			prefer = append(prefer, "(bvule "+t+" "+bvLit(4, 64)+")")
+			// a string that starts with a capital letter tells the case maps apart and survives trimming
+			inner := strings.TrimSuffix(strings.TrimPrefix(t, "(str!len "), ")")
+			preferStr = append(preferStr, and("(bvuge "+t+" "+bvLit(1, 64)+")", eq("(str!at "+inner+" "+bvLit(0, 64)+")", "#x41")))
+		}
+	}
+	for _, t := range decodable {
+		for _, c := range g.anyOrder {
+			if c.sort == sF64 && !c.boxed {
+				// finite, small numbers: conversions to integers are then defined
+				v := "(" + c.sel + " " + t + ")"
+				prefer = append(prefer, implies("((_ is "+c.ctor+") "+t+")", and("(fp.leq "+v+" ((_ to_fp 11 53) RNE 1000.0))", "(fp.geq "+v+" ((_ to_fp 11 53) RNE (- 1000.0)))")))
+			}
+		}
+	}
+	gvLine := "(get-value (" + strings.Join(gv, " ") + "))\n"
+	base := script
+	res, out := "unknown", ""
+	if k := strings.LastIndex(base, "(check-sat)"); k >= 0 && len(prefer) > 0 {
+		for _, ps := range [][]string{append(append([]string{}, prefer...), preferStr...), prefer} {
+			pref := base[:k] + "(assert " + and(ps...) + ")\n" + base[k:]
+			res, out, _ = runSolver(solvers[0], pref+gvLine, 20, "replay")
+			if res == "sat" {
+				break
+			}
+		}
+	}
+	script += gvLine
+	if res != "sat" {
+		res, out, _ = runSolver(solvers[0], script, 30, "replay")
+	}
 	if res != "sat" {
 		res, out, _ = runSolver(solvers[1], script, 30, "replay")
 	}
@@ -305,11 +441,17 @@ func replayModel(g *Gen, o *Obligation, rf *ReplayFile) {
 			n = nil
 		}
 		var v goVal
-		if n != nil {
+		if g.sortOf(p.Type()) == sRef && paramUnused(p) {
+			// a pointer or map the function never touches: nil will do, whatever the model says
+			v = goVal{lit: "(" + typeExpr(p.Type(), rc.pkg) + ")(nil)", smt: t, ok: true}
+		} else if st, isSlice := p.Type().Underlying().(*types.Slice); isSlice {
+			v = rc.decodeSlice(t, st, p.Type())
+		} else if n != nil {
 			v = rc.decode(n, p.Type(), t)
 		} else {
 			v = rc.zeroVal(p.Type())
 		}
+		rc.facts = append(rc.facts, v.facts...)
 		if !v.ok {
 			rf.Note = fmt.Sprintf("replay: input %s of type %s could not be rebuilt from the model (heap-shaped inputs are not decoded)", p.Name(), p.Type())
 			return
@@ -488,7 +630,7 @@ func (rc *replayCtx) evalClause(o *Obligation, rf *ReplayFile, outText string, a
 		return
 	}
 	// pin the uninterpreted functions to what the real run printed
-	var facts []string
+	facts := append([]string{}, rc.facts...)
 	for i, p := range fn.Params {
 		if g.sortOf(p.Type()) != sAny {
 			continue
@@ -499,6 +641,21 @@ func (rc *replayCtx) evalClause(o *Obligation, rf *ReplayFile, outText string, a
 				if err == nil {
 					facts = append(facts, eq(app("spec!FmtV", argSMT[i]), rc.strConst(s)))
 				}
+			}
+		}
+	}
+	// the case maps the spec leaves uninterpreted are the library's: pin them on the concrete strings
+	{
+		var have []string
+		for s := range rc.strs {
+			have = append(have, s)
+		}
+		for _, s := range have {
+			if g.reg.has("spec!ToLower") {
+				facts = append(facts, eq(app("spec!ToLower", rc.strConst(s)), rc.strConst(strings.ToLower(s))))
+			}
+			if g.reg.has("spec!ToUpper") {
+				facts = append(facts, eq(app("spec!ToUpper", rc.strConst(s)), rc.strConst(strings.ToUpper(s))))
 			}
 		}
 	}
@@ -597,3 +754,61 @@ func (rc *replayCtx) encodeResult(line string, t types.Type) (string, bool) {
 }
 
 var _ = ssa.BuilderMode(0)
+
+const replaySliceMax = 4
+
+// sliceElemTerm: the k-th element of the slice term t in the function's entry heap.
+func (rc *replayCtx) sliceElemTerm(t string, elem types.Type, k int) string {
+	h := rc.fv.heapGet(rc.fv.entry, rc.g.compElem(elem))
+	return sel(sel(h, "(s!ref "+t+")"), "(bvadd (s!off "+t+") "+bvLit(int64(k), 64)+")")
+}
+
+// decodeSlice rebuilds a slice input (length and elements) from the model; the SMT side stays the symbolic parameter,
+// pinned by facts about its length and elements.
+func (rc *replayCtx) decodeSlice(t string, st *types.Slice, full types.Type) goVal {
+	es := rc.g.sortOf(st.Elem())
+	if !(es == sAny || es == sStr || es == sBool || isBV(es) || es == sF64 || es == sF32) {
+		return goVal{}
+	}
+	ln, ok := rc.values["(s!len "+t+")"]
+	if !ok {
+		// the slice is not in the cone of the query: an empty one will do
+		return goVal{lit: typeExpr(full, rc.pkg) + "{}", smt: t, ok: true}
+	}
+	u, _, ok := parseBV(ln.atom)
+	if !ok || u > replaySliceMax {
+		return goVal{}
+	}
+	facts := []string{eq("(s!len "+t+")", bvLit(int64(u), 64))}
+	var lits []string
+	for k := 0; k < int(u); k++ {
+		et := rc.sliceElemTerm(t, st.Elem(), k)
+		n, ok := rc.values[et]
+		var v goVal
+		if ok {
+			v = rc.decode(n, st.Elem(), et)
+		} else {
+			v = rc.zeroVal(st.Elem())
+		}
+		if !v.ok {
+			return goVal{}
+		}
+		lits = append(lits, v.lit)
+		if len(v.facts) > 0 {
+			facts = append(facts, v.facts...)
+		} else {
+			facts = append(facts, eq(et, v.smt))
+		}
+	}
+	return goVal{lit: typeExpr(full, rc.pkg) + "{" + strings.Join(lits, ", ") + "}", smt: t, ok: true, facts: facts}
+}
+
+// paramUnused: the parameter has no use in the body (debug references aside).
+func paramUnused(p *ssa.Parameter) bool {
+	for _, r := range *p.Referrers() {
+		if _, ok := r.(*ssa.DebugRef); !ok {
+			return false
+		}
+	}
+	return true
+}
